@@ -127,7 +127,9 @@ func evaluate(sc Scenario) caseResult {
 
 const rule = "one session per case on the daemon's real pipeline (ParseLogLine, Reassembler, reassemblerCB, correlator, event writer): LOGIN record, 2-9 record groups " +
 	"(every fifth case 22-31) drawn from compound SYSCALL groups (execve with/without EXECVE, openat, open, unlink, chmod, connect, kill, write, exit_group, unknown; " +
-	"success=yes/no or no result; PROCTITLE and/or EOE terminated) and single USER_CMD/USER_START/USER_END/CRED_ACQ/CRED_REFR/USER_AUTH/USER_ACCT/USER_LOGIN/USER_LOGOUT/USER_ERR/" +
+	"success=yes/no or no result; PROCTITLE and/or EOE terminated), one group in five NOT led by its SYSCALL record (AVC SELinux/AppArmor, APPARMOR_*, SELINUX_ERR, SECCOMP, ANOM_ABEND/PROMISCUOUS/LINK/CREAT, " +
+	"NETFILTER_CFG, CONFIG_CHANGE, MAC_*, KERN_MODULE, INTEGRITY_*, BPF, FANOTIFY, FEATURE_CHANGE ... one or two of them before SYSCALL [EXECVE] [CWD] PATH* PROCTITLE, the kernel's order) or with auxiliary records after it (MMAP, CAPSET, BPRM_FCAPS, OBJ_PID, FD_PAIR ...): " +
+	"the expected summary is what aucoalesce makes of the same records in their original order, coalesced independently of the callback under test; and single USER_CMD/USER_START/USER_END/CRED_ACQ/CRED_REFR/USER_AUTH/USER_ACCT/USER_LOGIN/USER_LOGOUT/USER_ERR/" +
 	"USER_CHAUTHTOK/USER_ROLE_CHANGE/LOGIN records (res=success/failed/1/0 or none), 1 in 9 with no / unset / foreign session, CRED_DISP in 5 of 6 cases, stray records after it; " +
 	"arguments from a pool with spaces, quotes, UTF-8, control bytes (hex-encoded as the kernel does); login identity with generated subjects/source/target, delivered before, " +
 	"right after or long after the LOGIN record; every written event is compared with the model (case files) and judged by the oracle; the stored login is deep-copied and compared after every group; " +
